@@ -12,6 +12,9 @@ from harness import common, framegen, vecgen
 
 LEVEL = {"partial": ["the codecs themselves (pyarrow csv/parquet, pickle, numpy savez, json, csv, gzip/bz2/lzma, text encodings) are assumptions; what is dataiter's — suffix dispatch in xopen, which read_/write_ methods go through xopen, symmetric use on both sides — is regenerated from the source as tables and proved; the round trips are observed on generated data"]}
 ASSUMPTIONS = ["each external codec decodes what it encodes for representable data; gzip/bz2/lzma streams start with their magic bytes"]
+# objects with a history are also left grouped by an earlier group_by (harness/warm.py): none of the
+# operations of this property is documented as group-wise
+WARM_GROUPED = True
 RULE = ("frames of 1..5 rows x 1..4 columns (bool/int/float/str/date with missing values, non-ASCII text, delimiters, quotes and newlines "
         "inside strings; restricted per format to representable data) and lists of 1..4 dicts; formats pickle, npz, parquet, csv, json x "
         "suffix in {plain, .gz, .bz2, .xz} x sep in {, ; tab |} x header x encoding in {utf-8, latin-1, utf-16}; checked: equality of names, "
